@@ -345,7 +345,6 @@ impl<'a> Runner<'a> {
             self.out.count("twin_steps_equal");
             return;
         }
-        self.twin = Some((q_nz, m_nz, true));
         let first_var = a
             .vars
             .iter()
@@ -355,8 +354,21 @@ impl<'a> Runner<'a> {
             .unwrap_or_default();
         let detail = format!("after `{what}` differs in {}{first_var}", diff.join("+"));
         let only_images = diff.iter().all(|d| *d == "Q" || *d == "M");
+        if only_images {
+            // stale %Q/%M bytes only: keep comparing the rest of the continuation
+            self.out.count("twin_steps_images_only");
+            if q_nz || m_nz {
+                self.known("images-kept", detail);
+            } else {
+                self.twin = Some((q_nz, m_nz, true));
+                self.fail("cold-fresh", detail);
+            }
+            return;
+        }
+        self.twin = Some((q_nz, m_nz, true));
+        self.out.count("twin_sessions_diverged");
         let mut explained = false;
-        if (q_nz || m_nz) && (only_images || (m_nz && self.flags.m_bindings)) {
+        if m_nz && self.flags.m_bindings {
             self.known("images-kept", detail.clone());
             explained = true;
         }
@@ -364,15 +376,13 @@ impl<'a> Runner<'a> {
             self.known("stale-binding", detail.clone());
             explained = true;
         }
-        if !only_images || !explained {
-            if self.flags.single_true {
-                self.known("single-init-true", detail.clone());
-                explained = true;
-            }
-            if self.flags.cfg_init {
-                self.known("config-init-lost", detail.clone());
-                explained = true;
-            }
+        if self.flags.single_true {
+            self.known("single-init-true", detail.clone());
+            explained = true;
+        }
+        if self.flags.cfg_init {
+            self.known("config-init-lost", detail.clone());
+            explained = true;
         }
         if !explained {
             self.fail("cold-fresh", detail);
